@@ -343,7 +343,7 @@ func (g *G) classify(o *world.Obj) {
 		o.ClassName = sp(world.OurClass)
 		return
 	}
-	switch g.intn("classmode", 0, 9) {
+	switch g.intn("classmode", 0, 13) {
 	case 0, 1, 2, 3:
 		o.ClassName = sp(world.OurClass)
 	case 4, 5:
@@ -355,6 +355,18 @@ func (g *G) classify(o *world.Obj) {
 	case 8:
 		// unclassified
 	case 9:
+		o.ClassName = sp("dangling")
+	case 10: // annotation and class disagree
+		o.RawAnn = map[string]string{world.ClassAnn: world.OurClass}
+		o.ClassName = sp("other")
+	case 11:
+		o.RawAnn = map[string]string{world.ClassAnn: "nginx"}
+		o.ClassName = sp(world.OurClass)
+	case 12:
+		o.RawAnn = map[string]string{world.ClassAnn: world.OurClass}
+		o.ClassName = sp(world.OurClass)
+	case 13:
+		o.RawAnn = map[string]string{world.ClassAnn: world.OurClass}
 		o.ClassName = sp("dangling")
 	}
 }
